@@ -12,12 +12,18 @@ CFG = {
     "n": {"quick": 2500, "thorough": 60000},
     "exhaustive": {"quick": False, "thorough": True},
     "shrink": False,
-    "rule": "corpus (defects 27/28, loops, sharing) + small family (root and one inner node with every kids list of "
+    "rule": "corpus (defects 27/28, loops, sharing; chains.case = the chain family below) + chain family (every reference-chain "
+            "shape: direct, acyclic chain of 1-4 links, self loop, cycle of 2/3 through the start, lasso with tail 1-3 into a cycle of "
+            "1-3 not containing the start, dangling after 0-2 links, at each of 12 positions: root /Kids, node /Kids, /Contents, "
+            "/Contents array, /Contents element, root /Resources, page /Resources, /Font value, font entry, /Encoding, "
+            "/FontDescriptor, /FontFile2; 234 graphs tagged any + 150 tagged tc where the real check_type accepts; a case the "
+            "implementation does not finish is reported as hang/crash = bad) + small family (root and one inner node with every kids list of "
             "length <=2 over {root,node,4,5} x 3 shapes of object 4 x 4 resource placements: direct / 1 link / 2 links; "
             "every 7th in quick, all 5292 in thorough) + random page trees (depth <=3, fan-out <=3, /Kids /Contents "
-            "/Resources /Font /Encoding behind 0-3 links, fonts direct or indirect): 40% type-correct by construction "
-            "(tag tc: the REAL check_type(catalog_type) must accept, else the case is flagged), 20% plus a shared or "
-            "cyclic kid, 40% with one single-rule damage (self-referential or 2-cyclic /Kids /Contents /Resources object, "
+            "/Resources /Font /Encoding behind 0-3 links, fonts direct or indirect): 33% type-correct by construction "
+            "(tag tc: the REAL check_type(catalog_type) must accept, else the case is flagged), 17% plus a shared or "
+            "cyclic kid, 17% with a random chain shape at a random chain position (tc when the checker does not constrain it), "
+            "33% with one single-rule damage (self-referential or 2-cyclic /Kids /Contents /Resources object, "
             "dangling reference, missing/ill-typed key, defective font). Non-trivial = expected DOM has >=3 records "
             "including an inner node, or the graph contains a top-level reference object (chain link or loop).",
     "trusted_base": COMMON_TB + [
